@@ -262,19 +262,45 @@ DETERMINISTIC_R = {"insert", "get", "get_q", "contains", "get_mut", "get_kv_mut"
 
 
 def projection(path):
-    """API-level projection of a trace: per event the call, its result (where the abstract result is a function of the
-    abstract state), the panic class, and len + sorted contents of every table."""
+    """API-level projection of a trace: per event the call, its result, the panic class, the number of drops, and len +
+    sorted contents of every table.  Object identities (>= 100000) are replaced by the class of the key they belong to,
+    because the order in which a clone assigns fresh identities follows the bucket order, which legitimately differs
+    between group widths; identity semantics are checked per trace against the abstract specification."""
     out = []
+    owner = {}
+
+    def learn(k, i):
+        if i >= 100000 and i not in owner:
+            owner[i] = "c%d" % k
+
+    def proj(x):
+        if isinstance(x, int) and x >= 100000:
+            return owner.get(x, "?")
+        return x
+
     with open(path) as f:
         for line in f:
             o = json.loads(line)
             if o["op"] in ("reset", "end"):
+                owner.clear()
                 continue
+            learn(o["k"], o["id"])
+            learn(o["k"], o["vid"])
+            for y in o["y"]:
+                if len(y) >= 4 and y[0] >= 0:
+                    learn(y[0], y[1])
+                    learn(y[0], y[3])
             tabs = []
             for s in o["s"]:
-                tabs.append((s["lv"], s["len"], sorted((d[0], d[1], d[2], d[3]) for d in s["d"] if d[0] >= 0)))
-            r = o["r"] if o["op"] in DETERMINISTIC_R and o["op"] != "try_reserve" else (o["r"][:1] if o["op"] == "try_reserve" else None)
-            out.append((o["op"], o["t"], o["k"], o["v"], r, o["pn"], sorted(o["dr"]), tabs))
+                for d in s["d"]:
+                    if d[0] >= 0:
+                        learn(d[0], d[1])
+                        learn(d[0], d[3])
+                tabs.append((s["lv"], s["len"], sorted((d[0], d[2]) for d in s["d"] if d[0] >= 0)))
+            r = None
+            if o["op"] in DETERMINISTIC_R:
+                r = [proj(x) for x in (o["r"][:1] if o["op"] == "try_reserve" else o["r"])]
+            out.append((o["op"], o["t"], o["k"], o["v"], r, o["pn"], sorted(str(proj(x)) for x in o["dr"]), tabs))
     return out
 
 
